@@ -111,7 +111,9 @@ PROPS = {
                   # event types removed and registered again (registry slot reuse) with events sent afterwards
                   ("cascade", dict(quick=80, thorough=2000), {}),
                   # first use of a type from a world-level call while registration notifications panic / take / react
-                  ("firstuse", dict(quick=60, thorough=2000), {})],
+                  ("firstuse", dict(quick=60, thorough=2000), {}),
+                  # handlers with two receivers of one event (accepted only when both are shared)
+                  ("graphs", dict(quick=60, thorough=2000), dict(dup_recv_p=0.4, take_p=0.45, panic_p=0.1))],
         channels=["evdrops", "cdrops"],
         rule="events are destroyed on at least two different paths (completion, consumed, dead target)",
         nontrivial=both(has(r"^ed \d"), either(has(r"^t  took"), has(r"^t h .*@(null|\?)"))),
